@@ -143,8 +143,93 @@ def need_cert(fr):
     return "(Some (tubid_of the_cert))"
 
 
-def gen_ev1(mod, out):
+_EV1 = {}
+
+
+class _Rename(ast.NodeTransformer):
+    def __init__(self, m):
+        self.m = m
+
+    def visit_Name(self, n):
+        if n.id in self.m:
+            return ast.copy_location(ast.Name(id=self.m[n.id], ctx=n.ctx), n)
+        return n
+
+
+def the_ev1(mod):
+    """evaluateNegotiationVersion1 as the translators below read it.
+
+    ACCEPTED FORM (besides the identity checks standing in the method itself): the checks live in ONE helper method of
+    Negotiation that evaluateNegotiationVersion1 calls as a top-level statement
+            <t1>, <t2> = self.<helper>(<name>)
+    Then the helper's body is put in place of that statement (names of the helper's two results renamed to <t1>, <t2>, its
+    parameter to <name>) and everything below works on the result.
+    Equivalence (for all inputs, no assumption on value types): a call `self.h(x)` of a method with parameters (self, p), no
+    defaults / star-args / decorators, whose body contains no nested scope (def, lambda, comprehension-free of its own names is
+    not needed: comprehensions are refused too), no yield, global, nonlocal, try, with, and exactly one `return a, b` as its
+    LAST statement with a, b distinct local names, evaluates `x` (a plain name: no effect), binds p to it, runs the body and
+    binds t1, t2 to the values of a, b: exactly what the substituted statements do, provided the helper's other locals do not
+    occur in the caller (checked: otherwise refused) -- so no caller variable is captured or clobbered -- and p, a, b are
+    not otherwise bound to caller names.  An exception raised in the body propagates from the same point in both forms; the
+    attribute stores on self happen in the same order.  (Overriding the helper in a subclass is outside what any of these
+    translators read: they read class Negotiation.)"""
+    if id(mod) in _EV1:
+        return _EV1[id(mod)]
+    import copy
     ev1 = P.find_def(mod, "Negotiation.evaluateNegotiationVersion1")
+    res = ev1
+    if not any(isinstance(s_, ast.Assign) and un(s_.targets[0]) == "theirTubID" for s_ in ev1.body):
+        cands = [i for i, s_ in enumerate(ev1.body)
+                 if isinstance(s_, ast.Assign) and len(s_.targets) == 1 and isinstance(s_.targets[0], ast.Tuple)
+                 and len(s_.targets[0].elts) == 2 and all(isinstance(e, ast.Name) for e in s_.targets[0].elts)
+                 and isinstance(s_.value, ast.Call) and isinstance(s_.value.func, ast.Attribute)
+                 and isinstance(s_.value.func.value, ast.Name) and s_.value.func.value.id == "self"
+                 and len(s_.value.args) == 1 and isinstance(s_.value.args[0], ast.Name) and not s_.value.keywords]
+        if len(cands) == 1:
+            i = cands[0]
+            call = ev1.body[i]
+            t1, t2 = [e.id for e in call.targets[0].elts]
+            h = P.find_def(mod, "Negotiation." + call.value.func.attr)
+            a = h.args
+            if not isinstance(h, ast.FunctionDef) or h.decorator_list or a.vararg or a.kwarg or a.kwonlyargs or a.defaults \
+                    or getattr(a, "posonlyargs", []) or [x.arg for x in a.args][:1] != ["self"] or len(a.args) != 2:
+                raise U("identity helper %s: unsupported signature" % h.name)
+            hb = [x for x in h.body if not (isinstance(x, ast.Expr) and isinstance(x.value, ast.Constant))]
+            last = hb[-1] if hb else None
+            if not (isinstance(last, ast.Return) and isinstance(last.value, ast.Tuple) and len(last.value.elts) == 2
+                    and all(isinstance(e, ast.Name) for e in last.value.elts)):
+                raise U("identity helper %s: does not end in `return <name>, <name>`" % h.name)
+            r1, r2 = [e.id for e in last.value.elts]
+            bad = (ast.Return, ast.Yield, ast.YieldFrom, ast.Lambda, ast.FunctionDef, ast.AsyncFunctionDef, ast.ClassDef, ast.Global,
+                   ast.Nonlocal, ast.Try, ast.With, ast.ListComp, ast.SetComp, ast.DictComp, ast.GeneratorExp, ast.NamedExpr, ast.Delete)
+            for st in hb[:-1]:
+                for n in ast.walk(st):
+                    if isinstance(n, bad):
+                        raise U("identity helper %s: %s at line %d" % (h.name, type(n).__name__, n.lineno))
+            param = a.args[1].arg
+            stores = {n.id for st in hb for n in ast.walk(st) if isinstance(n, ast.Name) and isinstance(n.ctx, ast.Store)}
+            if r1 == r2 or param in stores or r1 not in stores or r2 not in stores or t1 == t2:
+                raise U("identity helper %s: parameter / result names are not plain locals" % h.name)
+            caller_names = {n.id for st in ev1.body[:i] + ev1.body[i + 1:] for n in ast.walk(st) if isinstance(n, ast.Name)}
+            caller_names |= {x.arg for x in ev1.args.args}
+            helper_names = {n.id for st in hb for n in ast.walk(st) if isinstance(n, ast.Name)}
+            ren = {r1: t1, r2: t2, param: call.value.args[0].id}
+            for nm in helper_names:
+                if nm in ren:
+                    continue
+                if nm in (t1, t2):
+                    raise U("identity helper %s: local %s would be captured by the caller's result name" % (h.name, nm))
+                if nm in stores and nm in caller_names:
+                    raise U("identity helper %s: local %s also occurs in evaluateNegotiationVersion1" % (h.name, nm))
+            new = [_Rename(ren).visit(copy.deepcopy(st)) for st in hb[:-1]]
+            res = copy.copy(ev1)
+            res.body = ev1.body[:i] + new + ev1.body[i + 1:]
+    _EV1[id(mod)] = res
+    return res
+
+
+def gen_ev1(mod, out):
+    ev1 = the_ev1(mod)
     body = ev1.body
     starts = [i for i, s in enumerate(body) if isinstance(s, ast.Assign) and un(s.targets[0]) == "theirTubID"]
     if len(starts) != 1:
@@ -201,10 +286,10 @@ def gen_ev1(mod, out):
         raise U("evaluateNegotiationVersion1: expected certificate test, assert, `self.theirTubRef = ..`, client test in that order")
     text = fr.block(seg, done)
     out.append("Section Ev1.\nVariable cert : Type.\nVariable tubid_of : cert -> list Z.\n\n"
-               "(* evaluateNegotiationVersion1, lines %d-%d: result = the tub id stored in self.theirTubRef *)\n"
+               "(* evaluateNegotiationVersion1, identity checks: result = the tub id stored in self.theirTubRef *)\n"
                "Definition ev1_identity (isClient : bool) (target : list Z) (theirCertificate : option cert)\n"
                "   (theirTubID : option (list Z)) : res (option (list Z)) :=\n %s.\nEnd Ev1."
-               % (body[i0].lineno, body[i1].end_lineno, text))
+               % text)
     # where the certificate comes from: handleENCRYPTED
     hef = P.find_def(mod, "Negotiation.handleENCRYPTED")
     he = un(hef)
@@ -258,9 +343,24 @@ def gen_switch(mod, out):
 def gen_lookup(mod, out):
     hp = P.find_def(mod, "Negotiation.handlePLAINTEXTServer")
     src = un(hp)
-    empties = [s for s in hp.body if isinstance(s, ast.If) and un(s.test) == "targetTubID == ''"]
+    # ACCEPTED FORMS of the empty-id test: `targetTubID == ''`, and `not targetTubID` -- the latter only when targetTubID is
+    # assigned exactly once in the method and that assignment is `targetTubID = six.ensure_str(<expr>)`: six.ensure_str returns
+    # an instance of `str` or raises, and for a str s, `not s` is `len(s) == 0` is `s == ''` (str defines no __bool__ and its
+    # __eq__ with '' is by content); so both tests take the same branch on every value that can reach them.  (No assumption:
+    # the type fact is established by the assignment the translator has just seen.)
+    tt_assigns = [n for n in ast.walk(hp) if isinstance(n, (ast.Assign, ast.AugAssign, ast.AnnAssign, ast.NamedExpr, ast.For, ast.With))
+                  for t in ast.walk(n.targets[0] if isinstance(n, ast.Assign) else getattr(n, "target", n))
+                  if isinstance(t, ast.Name) and t.id == "targetTubID" and isinstance(t.ctx, ast.Store)]
+    is_str = (len(tt_assigns) == 1 and isinstance(tt_assigns[0], ast.Assign) and len(tt_assigns[0].targets) == 1
+              and isinstance(tt_assigns[0].value, ast.Call) and un(tt_assigns[0].value.func) == "six.ensure_str"
+              and len(tt_assigns[0].value.args) == 1 and not tt_assigns[0].value.keywords)
+    empties = [s for s in hp.body if isinstance(s, ast.If) and not s.orelse
+               and (un(s.test) == "targetTubID == ''" or (un(s.test) == "not targetTubID" and is_str))]
     if len(empties) != 1 or not isinstance(empties[0].body[0], ast.Raise):
         raise U("handlePLAINTEXTServer: the empty-tubid refusal changed")
+    i_emp = hp.body.index(empties[0])
+    if is_str and tt_assigns[0] in hp.body and hp.body.index(tt_assigns[0]) > i_emp:
+        raise U("handlePLAINTEXTServer: targetTubID is tested before it is assigned")
     empty_exc = Frag({}, {}).exc(empties[0].body[0])
     for frag in ("targetTubID = six.ensure_str(url[4:])", "tub, redirect = self.listener.lookupTubID(targetTubID)",
                  "self.myTubID = tub.tubID", "self.tub = tub"):
@@ -276,12 +376,51 @@ def gen_lookup(mod, out):
     unknown_exc = Frag({}, {}).exc(tail[0].orelse[0])
     lk = P.find_def(P.load("pb.py"), "Listener.lookupTubID")
     lks = un(lk)
-    ifs = [s for s in lk.body if isinstance(s, ast.If)]
-    if len(ifs) != 1 or not isinstance(ifs[0].test, ast.Compare) or len(ifs[0].test.ops) != 1 \
-            or un(ifs[0].test.left) != "tubID" or un(ifs[0].test.comparators[0]) != "self._tub.tubID" \
-            or un(ifs[0].body[0]) != "tub = self._tub" or ifs[0].orelse \
-            or "tub = None" not in lks or "return (tub, self._redirects.get(tubID))" not in lks:
+    # ACCEPTED FORMS of Listener.lookupTubID (after the docstring), read statement by statement:
+    #     tubID = six.ensure_str(tubID)
+    #     EITHER  tub = None ; if <cmp>: tub = self._tub            (no else)
+    #     OR      tub = self._tub if <cmp> else None
+    #     optionally  <r> = self._redirects.get(tubID)               (one local, assigned once, immediately before its only use)
+    #     return (tub, self._redirects.get(tubID))   resp.   return (tub, <r>)
+    # Equivalence: in both spellings <cmp> is evaluated exactly once, before the redirect lookup; `self._tub` is read only when
+    # <cmp> is true; tub is None otherwise; the redirect lookup is the last evaluation before the tuple is built, whether it is
+    # held in a local for one statement or written in the return: no other evaluation lies between.  Holds for any values.
+    st = [x for x in lk.body if not (isinstance(x, ast.Expr) and isinstance(x.value, ast.Constant))]
+
+    def bad():
         raise U("Listener.lookupTubID changed: " + lks)
+    if [a.arg for a in lk.args.args] != ["self", "tubID"] or len(st) < 3 or un(st[0]) != "tubID = six.ensure_str(tubID)" \
+            or not isinstance(st[-1], ast.Return) or not isinstance(st[-1].value, ast.Tuple) or len(st[-1].value.elts) != 2:
+        bad()
+    mid = st[1:-1]
+    r1, r2 = st[-1].value.elts
+    if un(r1) != "tub":
+        bad()
+    if un(r2) == "self._redirects.get(tubID)":
+        pass
+    elif isinstance(r2, ast.Name) and mid and isinstance(mid[-1], ast.Assign) and len(mid[-1].targets) == 1 \
+            and un(mid[-1].targets[0]) == r2.id and r2.id not in ("tub", "tubID", "self") \
+            and un(mid[-1].value) == "self._redirects.get(tubID)" \
+            and sum(1 for n in ast.walk(lk) if isinstance(n, ast.Name) and n.id == r2.id) == 2:
+        mid = mid[:-1]
+    else:
+        bad()
+    if len(mid) == 2 and un(mid[0]) == "tub = None" and isinstance(mid[1], ast.If) and not mid[1].orelse \
+            and [un(x) for x in mid[1].body] == ["tub = self._tub"]:
+        test = mid[1].test
+    elif len(mid) == 1 and isinstance(mid[0], ast.Assign) and [un(t) for t in mid[0].targets] == ["tub"] \
+            and isinstance(mid[0].value, ast.IfExp) and un(mid[0].value.body) == "self._tub" and un(mid[0].value.orelse) == "None":
+        test = mid[0].value.test
+    else:
+        bad()
+    if not isinstance(test, ast.Compare) or len(test.ops) != 1 or un(test.left) != "tubID" \
+            or un(test.comparators[0]) != "self._tub.tubID":
+        bad()
+
+    class _T:
+        pass
+    ifs = [_T()]
+    ifs[0].test = test
     op = ifs[0].test.ops[0]
     if isinstance(op, ast.Eq):
         cmp_ = "(list_eqb requested my_id)"
@@ -473,7 +612,7 @@ def gen_phases(mod, out):
     out.append("(* value of receive_phase while evaluateHello (and so every identity check) runs *)\n"
                "Definition phase_during_evaluate_hello : phase := %s." % during)
     # evaluateNegotiationVersion1: the non-deciding end's phase after an accepted hello
-    ev1 = P.find_def(mod, "Negotiation.evaluateNegotiationVersion1")
+    ev1 = the_ev1(mod)
     pa = phase_assigns(ev1)
     ends = [i for i, s_ in enumerate(ev1.body) if isinstance(s_, ast.If) and un(s_.test) == "self.isClient"]
     if len(pa) == 0:
